@@ -66,7 +66,7 @@ class C13(Check):
             # moments of a three-component model on the weighted grid)
             from engines import uq_sim as UQ
             cfg = UQ.C15().gen(rk, tier, idx)["config"]
-            cfg.update(max_intervals=10 ** 6, norm=r.choice([1, 2, "inf"]))
+            cfg.update(max_intervals=10 ** 6, norm=r.choice([1, 2, "inf"]), prelude=0)     # (no earlier run on the operation: its evaluations would count as the stub's)
         elif strategy == "dimension_wise":
             cfg = DS.gen_cfg(r, tier, dims=(1, 2, 2, 2, 3, 3))
             cfg["max_intervals"] = 10 ** 6
